@@ -163,11 +163,20 @@ func (x *Exec) havocCall(st *State, fr *Frame, key string, sig *types.Signature,
 	} else {
 		x.pureCalls[key] = true
 	}
+	x.bumpAlloc(st)
 	var res []Value
 	for i := 0; i < sig.Results().Len(); i++ {
 		res = append(res, x.symbolic(st, sig.Results().At(i).Type(), "r."+shortName(key)))
 	}
 	return single(st, res...)
+}
+
+// bumpAlloc: a callee may allocate; the allocation counter moves to an
+// unknown later value (its results may be fresh objects).
+func (x *Exec) bumpAlloc(st *State) {
+	na := x.d.fresh("alloc", sInt)
+	st.assume(mkCmp("<=", st.alloc, na))
+	st.alloc = na
 }
 
 // havocReachable: an unknown callee may write the object a pointer argument
@@ -270,6 +279,7 @@ func (x *Exec) applyContract(st *State, fr *Frame, c *FuncContract, key string, 
 	oldSt := st.clone()
 	// frame
 	x.applyAssigns(st, env, c, args)
+	x.bumpAlloc(st)
 	var res []Value
 	for i := 0; i < sig.Results().Len(); i++ {
 		res = append(res, x.symbolic(st, sig.Results().At(i).Type(), "r."+short))
